@@ -8,7 +8,7 @@ PROPS = {
     "C01": {"coq": "Properties/C01.v", "params": ["Proofs/ParamsSxg.vo"], "gens": ["C01"], "trusted_base": CRYPTO_TB},
     "C02": {"coq": "Properties/C02.v", "coq_extra": ["Properties/C02Truncation.v"], "params": ["Proofs/ParamsSxg.vo"], "gens": ["C02"], "trusted_base": CRYPTO_TB},
     "C03": {"coq": "Properties/C03.v", "params": ["Proofs/ParamsBundle.vo"], "gens": ["C03"]},
-    "C04": {"coq": "Properties/C04.v", "params": ["Proofs/ParamsBundle.vo"], "gens": ["C04"]},
+    "C04": {"coq": "Properties/C04.v", "coq_extra": ["Properties/C04ReadFrom.v"], "params": ["Proofs/ParamsBundle.vo"], "gens": ["C04"]},
     "C05": {"coq": "Properties/C05.v", "coq_extra": ["Properties/C05Truncation.v"], "params": ["Proofs/ParamsBundle.vo"], "gens": ["C05"]},
     "C06": {"coq": "Properties/C06.v", "params": ["Proofs/ParamsBundle.vo"], "gens": ["C06", "C06x"], "trusted_base": CRYPTO_TB},
     "C07": {"coq": "Properties/C07.v", "params": ["Proofs/ParamsIB.vo"], "gens": ["C07"], "trusted_base": CRYPTO_TB, "bins": True},
